@@ -614,7 +614,8 @@ func (hp *HPACK) AppendHeader(dst []byte, hf *HeaderField, store bool) []byte {
 	index, fullMatch = hp.search(hf)
 	if hf.sensible {
 		c = false
-		dst = append(dst, 16)
+		// never-indexed literals carry the name index in a 4-bit prefix
+		bits, dst = 4, append(dst, 16)
 	} else {
 		if index > 0 { // key and/or value can be used as index
 			if fullMatch {
